@@ -275,6 +275,202 @@ def check_f4(rep, idx):
             rep.violation(Finding("F4", "AnyManifold", k, "%s does not produce an independent deep copy through clone()/copy-construction of the wrapped value" % k, d.file, d.line))
 
 
+# ---- F5: rminus(rplus(m, a), m) = a by term rewriting -------------------------------------------------------------------------
+
+class TErr(Exception):
+    pass
+
+
+def _fname(e):
+    return str(e[1]).split("::")[-1].split("<")[0]
+
+
+def check_f5(rep, idx_lie, idx_sub):
+    """The defining axiom of a manifold model, decided symbolically.
+    LieGroup model: rplus(g, a) = g * exp(a) and rminus(g1, g2) = log(g2^-1 * g1); substituting, rminus(rplus(g, a), g) must reduce to
+    log(exp(a)) in the free group on every return path (a shortcut such as log(g1) - log(g2) is not an identity: it fails to wrap).
+    SubManifold model over an abstract M with the axiom rminus_M(rplus_M(x, s), x) = s: (m (+) a) (-) m must be gather(scatter(a))."""
+    import c14
+    rep.rule("F5", "rminus(rplus(m, a), m) reduces to a: LieGroup model in the free group, SubManifold over an abstract manifold", minimum=2)
+    # --- LieGroup model
+    mans = [d for d in idx_lie if d.kind in A.FUNCS and d.pattern and d.file and d.file.endswith("concepts/lie_group.hpp") and A.body(d.node) is not None
+            and d.qname.split("::")[-1] in ("rplus", "rminus")]
+    byname = {}
+    for d in mans:
+        byname.setdefault(d.qname.split("::")[-1], []).append(d)
+    if len(byname.get("rplus", [])) != 1 or len(byname.get("rminus", [])) != 1:
+        rep.broke("F5: traits::man<LieGroup>::rplus / rminus not found (%s)" % {k: len(v) for k, v in byname.items()})
+    else:
+        rp, rm = byname["rplus"][0], byname["rminus"][0]
+        pg, pa = [p.get("name") for p in A.params(rp.node)]
+
+        def gw(e, env):
+            if e[0] == "ref":
+                if e[1] in env:
+                    return list(env[e[1]])
+                raise TErr("name %s" % e[1])
+            if e[0] == "call":
+                f = _fname(e)
+                if f == "composition":
+                    out = []
+                    for a in e[2]:
+                        out += gw(a, env)
+                    return c14.fg_reduce(out)
+                if f == "inverse" and len(e[2]) == 1:
+                    return c14.fg_inv(gw(e[2][0], env))
+                if f == "exp" and len(e[2]) == 1 and e[2][0][0] == "ref" and e[2][0][1] in env and env[e[2][0][1]] == "TANGENT":
+                    return [("exp(a)", 1)]
+            if e[0] == "op" and e[1] == "*":
+                return c14.fg_reduce(gw(e[2], env) + gw(e[3], env))
+            raise TErr("group expression %s" % A.show(e)[:50])
+        try:
+            rets = [A.to_expr(A.kids(x)[0]) for x in A.walk_nolambda(A.body(rp.node)) if x.get("kind") == "ReturnStmt"]
+            if len(rets) != 1:
+                raise TErr("rplus has %d returns" % len(rets))
+            plus = gw(rets[0], {pg: [("g", 1)], pa: "TANGENT"})
+            p1, p2 = [p.get("name") for p in A.params(rm.node)]
+            bad = None
+            nret = 0
+            for x in A.walk_nolambda(A.body(rm.node)):
+                if x.get("kind") != "ReturnStmt":
+                    continue
+                nret += 1
+                e = A.to_expr(A.kids(x)[0])
+                if e[0] == "call" and _fname(e) == "log" and len(e[2]) == 1:
+                    w = gw(e[2][0], {p1: plus, p2: [("g", 1)]})
+                    if w != [("exp(a)", 1)] and bad is None:
+                        bad = (x, "log(%s)" % (" ".join("%s%s" % (s_, "" if k_ == 1 else "^-1") for s_, k_ in w) or "1"))
+                else:
+                    if bad is None:
+                        bad = (x, A.show(e)[:80])
+            if nret == 0:
+                raise TErr("rminus has no return")
+            rep.instance("F5", "traits::man<LieGroup>", "rminus(rplus(g, a), g)", ok=bad is None, sample={"file": fe.rel(rm.file), "line": rm.line, "rplus": "g exp(a)", "returns": nret})
+            if bad:
+                f, l = A.loc(bad[0])
+                rep.violation(Finding("F5", "traits::man<LieGroup>::rminus", "axiom",
+                                      "with rplus(g, a) = g * exp(a), one return path of rminus evaluates rminus(rplus(g, a), g) as %s, which does not reduce to log(exp(a)) = a "
+                                      "in the free group (the difference of two logarithms is not the logarithm of the quotient: angles do not wrap)" % bad[1], f, l))
+        except TErr as ex:
+            rep.broke("F5: cannot interpret traits::man<LieGroup>::rplus / rminus: %s" % ex)
+    # --- SubManifold
+    sub = {}
+    for d in idx_sub:
+        if d.kind in A.FUNCS and d.pattern and d.file and d.file.endswith("submanifold.hpp") and A.body(d.node) is not None and d.qname in ("SubManifold::rplus", "SubManifold::rminus"):
+            sub[d.qname.split("::")[-1]] = d
+    if set(sub) != {"rplus", "rminus"}:
+        rep.broke("F5: SubManifold::rplus / rminus not found")
+        return
+    try:
+        # rplus: new value = man<M>::rplus(m_m, S) where S is the scattered tangent (a local filled from `a` by the F2 loop)
+        rp = sub["rplus"]
+        ret = [A.to_expr(A.kids(x)[0]) for x in A.walk_nolambda(A.body(rp.node)) if x.get("kind") == "ReturnStmt"]
+        if len(ret) != 1:
+            raise TErr("rplus has %d returns" % len(ret))
+        args = ret[0][2] if ret[0][0] in ("ctor", "call") else (ret[0][1] if ret[0][0] == "init" else None)
+        if not args or len(args) != 3:
+            raise TErr("rplus does not return SubManifold(m0, value, fixed_dims): %s" % A.show(ret[0])[:60])
+        val = args[1]
+        vargs = val[2] if val[0] == "call" else (val[4] if val[0] == "mcall" else None)
+        vname = _fname(val) if val[0] == "call" else (val[2] if val[0] == "mcall" else None)
+        if not (vname == "rplus" and vargs and len(vargs) == 2 and A.show(vargs[0]).endswith("m_m") and vargs[1][0] == "ref"):
+            raise TErr("new value is %s" % A.show(val)[:60])
+        scat = vargs[1][1]
+        origin_kept = A.show(args[0]).endswith("m_m0")
+        # rminus: gather(T) with T a local initialised by an expression in man<M>::rminus
+        rm = sub["rminus"]
+        other = [p.get("name") for p in A.params(rm.node)][0]
+        locs = {}
+        for x in A.walk_nolambda(A.body(rm.node)):
+            if x.get("kind") == "VarDecl" and A.kids(x):
+                locs[x.get("name")] = A.to_expr(A.kids(x)[-1])
+        gathered = None
+        for x in A.walk_nolambda(A.body(rm.node)):
+            if x.get("kind") in ("BinaryOperator", "CXXOperatorCallExpr"):
+                e = A.to_expr(x)
+                if e[0] == "op" and e[1] == "=" and e[3][0] in ("call", "sub") and isinstance(e[3][1], (str, tuple)):
+                    src = e[3][1] if isinstance(e[3][1], str) else (e[3][1][1] if e[3][1][0] == "ref" else None)
+                    if src in locs:
+                        gathered = src
+        if gathered is None:
+            raise TErr("rminus does not gather from a local tangent")
+
+        def term(e):
+            """normal form over an abstract manifold: 'S' (the scattered tangent), or a structured term"""
+            eargs = e[2] if e[0] == "call" else (e[4] if e[0] == "mcall" else None)
+            ename = _fname(e) if e[0] == "call" else (e[2] if e[0] == "mcall" else None)
+            if ename == "rminus" and eargs and len(eargs) == 2:
+                x_, y_ = val_of(eargs[0]), val_of(eargs[1])
+                if x_ == ("rplus", "m", "S") and y_ == "m":
+                    return "S"
+                return ("rminus", x_, y_)
+            if e[0] == "op" and e[1] in ("+", "-"):
+                return (e[1], term(e[2]), term(e[3]))
+            if e[0] == "ref" and e[1] in locs:
+                return term(locs[e[1]])
+            raise TErr("tangent expression %s" % A.show(e)[:60])
+
+        def val_of(e):
+            t = A.show(e)
+            if t.endswith("m_m0") or t.endswith("m0()"):
+                return "m0"
+            if t in ("this.m_m", "m_m") or t.endswith("this.m_m"):
+                return ("rplus", "m", "S")      # this = m (+) a
+            if t in ("%s.m()" % other, "%s.m_m" % other):
+                return "m"                       # other = m
+            raise TErr("value expression %s" % t[:40])
+        nf = term(locs[gathered])
+        ok = nf == "S" and origin_kept
+
+        def show(t):
+            if isinstance(t, tuple):
+                if t[0] in ("+", "-"):
+                    return "(%s %s %s)" % (show(t[1]), t[0], show(t[2]))
+                return "%s(%s)" % (t[0], ", ".join(show(x) for x in t[1:]))
+            return {"S": "scatter(a)", "m": "m", "m0": "m0"}.get(t, str(t))
+        rep.instance("F5", "SubManifold", "rminus(rplus(m, a), m)", ok=ok, sample={"file": fe.rel(rm.file), "line": rm.line, "normal_form": "gather(%s)" % show(nf)})
+        if not ok:
+            rep.violation(Finding("F5", "SubManifold::rminus", "axiom",
+                                  "over an abstract manifold M, (m (+) a) (-) m evaluates gather(%s)%s; only gather(scatter(a)) = a follows from M's own axiom "
+                                  "rminus(rplus(x, s), x) = s (differences taken in the coordinates of another point are not additive on curved manifolds)"
+                                  % (show(nf), "" if origin_kept else " and rplus does not keep the origin m0"), rm.file, rm.line))
+    except TErr as ex:
+        rep.broke("F5: cannot interpret SubManifold::rplus / rminus: %s" % ex)
+
+
+def check_f6(rep, idx_vec):
+    """F6: dof of the std::vector<M> model is the sum of the element dofs: for static Dof size * Dof, otherwise an accumulation of dof(item) over
+    all items -- the tangent length F3's cursor arithmetic consumes and produces."""
+    rep.rule("F6", "traits::man<std::vector<M>>::dof = sum of the element dofs", minimum=1)
+    fns = [d for d in idx_vec if d.kind in A.FUNCS and d.pattern and d.file and d.file.endswith("manifolds/vector.hpp") and A.body(d.node) is not None
+           and d.qname.split("::")[-1] == "dof"]
+    if len(fns) != 1:
+        rep.broke("F6: traits::man<std::vector<M>>::dof not found (%d)" % len(fns))
+        return
+    d = fns[0]
+    ifs = [x for x in A.kids(A.body(d.node)) if x.get("kind") == "IfStmt"]
+    if len(ifs) != 1 or len(A.kids(ifs[0])) != 3:
+        rep.broke("F6: dof is no longer `if constexpr (Dof > 0) size*Dof else accumulate`")
+        return
+    ks = A.kids(ifs[0])
+    ctext = A.ntext(ks[0])
+    stat, dyn = (ks[1], ks[2]) if (">0" in ctext.replace(" ", "") or "!=-1" in ctext.replace(" ", "")) else (ks[2], ks[1])
+    dt = A.ntext(dyn)
+    sums_all = ("accumulate(" in dt and "dof(item)" in dt.replace(" ", "").replace("traits::man<M>::", "").replace("::smooth::", "").replace("dof<M>", "dof")) or \
+               (("for(" in dt or "for (" in dt) and "+=" in dt and "dof" in dt)
+    uses_front = "front()" in dt or "[0]" in dt or "begin()" in dt and "accumulate" not in dt
+    f, l = A.loc(dyn)
+    if sums_all and not uses_front:
+        rep.instance("F6", "traits::man<std::vector<M>>::dof", "dynamic", ok=True, sample={"file": fe.rel(f), "line": l})
+    elif uses_front and not sums_all:
+        rep.instance("F6", "traits::man<std::vector<M>>::dof", "dynamic", ok=False, sample={"file": fe.rel(f), "line": l})
+        rep.violation(Finding("F6", "traits::man<std::vector<M>>::dof", "dynamic",
+                              "for elements of dynamic size the dof is computed from one element (`%s`) instead of summing dof(item) over all items: containers whose "
+                              "elements have different run-time sizes get a dof that differs from the tangent length rplus consumes and rminus returns" % dt[:90], f, l))
+    else:
+        rep.broke("F6: dynamic-size branch `%s` not recognised" % dt[:80])
+
+
 def check(rep, tier, replay=None):
     rep.explanations.append(
         "C07: structural necessary conditions of the manifold axioms for the container/adaptor models: constructor-field "
@@ -289,3 +485,6 @@ def check(rep, tier, replay=None):
     check_f2(rep, idx_s)
     check_f3(rep, A.index(d["traits::man<"]))
     check_f4(rep, A.index(d["AnyManifold"]))
+    idx_m = A.index(d["traits::man<"])
+    check_f5(rep, idx_m, idx_s)
+    check_f6(rep, idx_m)
